@@ -47,6 +47,9 @@ class blockiterator(object):
         if padding:
             nPi = self.lastblock(Pi,**kargs)
             b,lastb= nPi[:self.blocklen],nPi[self.blocklen:]
+            if bitlen==bitcnt:
+                # no message bit left for this block: it carries padding only
+                self.bitcnt = 0
             yield b
             if len(lastb)>0:
                 self.bitcnt = 0
